@@ -320,10 +320,11 @@ func randLine(r *core.Rand, minArgs, maxArgs int) string {
 
 // Run is the check.
 func Run(c *core.Ctx) {
-	c.Note("rule", fmt.Sprintf("states (%d): fresh; thread running in a heartbeat loop; suspended at top level (breakpoint, breakonstart, last line), inside 1..3 nested calls, on an error (list / map / nested containers with a function as error data); finished (with and without RecordThreadFinished, after a mutex block); after StopThreads. "+
+	c.Note("rule", fmt.Sprintf("states (%d): fresh; suspended on the first node ever evaluated with the debugger (single statement program); thread running in a heartbeat loop; suspended at top level (breakpoint, breakonstart, last line), inside 1..3 nested calls, on an error (list / map / nested containers with a function as error data); finished (with and without RecordThreadFinished, after a mutex block); after StopThreads. "+
 		"enum-<state>: every command of {%s, unknown, empty} x every argument vector of length <=2 over %d values (valid tid, other tid, 0, -1, 2^63, 1e99, abc, known/unknown source, src:3, src:, :3, src:x, a:b:c, identifier, dotted path, expression, failing expression, empty, garbage bytes, resume/stepin/stepover/stepout/StepOut/true), one fresh state per line (quick tier: length 2 only for cont, describe, extract, inject and the empty command word - the other commands never read a second argument); "+
 		"rand-vec: vectors of length 3..4 (also over %d further values: variables, JSON-ish expressions, odd numbers, unicode spaces), random separators; seq: random command sequences of length <=8 in one state. "+
 		"Oracles after every line: no panic out of HandleInput (core.Guard), json.Marshal of the result succeeds (taken while no debugged thread runs), a follow-up `status` and a write-lock command return - a probe that does not return is decided by the stuck-state predicate (probing goroutine in RWMutex acquisition inside an ecalDebugger method while every other goroutine inside the debugger is blocked), no panic on the debugged thread. "+
+		"threadstart: 2..12 threads leave a barrier and evaluate a short program (first state visit = registration with the debugger) while another goroutine keeps sending status / describe <tid> / lockstate; no panic, no process death, and (race build) no data race with a command handler as innermost frame. "+
 		"non-trivial = distinct (state, command line) whose command word is in the vocabulary and which has at least one argument or whose state holds a thread",
 		len(states), strings.Join(commands[:10], ","), len(argPool), len(extraArgs)))
 	c.Note("exhaustive", "true")
@@ -384,6 +385,11 @@ func Run(c *core.Ctx) {
 		if idx%29 == 5 {
 			c.Sample("inject-call", map[string]interface{}{"state": st.name, "line": line})
 		}
+	})
+	// threads that start (their first state visit registers them with the
+	// debugger) while status / describe / lockstate commands are answered
+	c.Parallel(len(envs), "threadstart", c.Pick(600, 12000), func(slot, idx int) {
+		k.runThreadStart(envs[slot], slot, idx)
 	})
 	// random longer vectors
 	c.Parallel(len(envs), "rand-vec", c.Pick(8000, 400000), func(slot, idx int) {
